@@ -77,7 +77,7 @@ func (f *c20ReadScan) PostProcessDefinitionRegistry(r container.DefinitionRegist
 	r.GetMetaOrRegister(name, c)
 	n := 0
 	for _, m := range r.GetMetas() {
-		n += len(m.GetAllProperties())
+		n += len(m.GetAllProperties()) + len(m.Name()) // what a definition has and what it is called
 	}
 	_ = n
 	return nil
